@@ -244,7 +244,7 @@ func genC03(r *Rng, tier string) []Case {
 			b.ManifestURL = mustURL("https://example.com/m")
 		}
 		in := bundleInSx(b)
-		cs = append(cs, Case{"bundle_write", []Sx{in, Sym([]string{"buffer", "plain"}[r.Intn(2)])}})
+		cs = append(cs, Case{"bundle_write", []Sx{in, Sym([]string{"buffer", "plain", "counting"}[r.Intn(3)])}})
 		cs = append(cs, Case{"bundle_cycle", []Sx{in, x509SigTab(nil)}})
 		var buf bytes.Buffer
 		func() {
